@@ -119,7 +119,8 @@ class DiscreteTimeInterpreter(TimeInterpreter):
         b = b * self.ast.U[b_unit]
         e = e * self.ast.U[e_unit]
 
-        sp = Fraction(self.sampling_period * self.ast.U[self.sampling_period_unit])
+        # the period as it is written (33.3 ms is 33300 us, not the binary expansion of the float times 10**6)
+        sp = Fraction(str(self.sampling_period)) * self.ast.U[self.sampling_period_unit]
         b = b / sp
         e = e / sp
 
